@@ -1,0 +1,111 @@
+//go:build verif
+
+package notifier
+
+import (
+	"math"
+	"sync"
+	"time"
+
+	"go.uber.org/zap"
+
+	"github.com/linkedin/Burrow/core/protocol"
+)
+
+// Verification hooks (build tag "verif" only).
+
+// VerifNewCoordinator builds a Coordinator around the given (already constructed) modules, the way
+// Configure would leave it, without parsing templates or touching the network. minInterval is in seconds.
+func VerifNewCoordinator(app *protocol.ApplicationContext, modules map[string]Module, minInterval int64) *Coordinator {
+	nc := &Coordinator{
+		App:               app,
+		Log:               zap.NewNop(),
+		modules:           make(map[string]protocol.Module),
+		clusters:          make(map[string]*clusterGroups),
+		clusterLock:       &sync.RWMutex{},
+		minInterval:       minInterval,
+		quitChannel:       make(chan struct{}),
+		evaluatorResponse: make(chan *protocol.ConsumerGroupStatus),
+	}
+	if minInterval <= 0 {
+		nc.minInterval = math.MaxInt64
+	}
+	for name, module := range modules {
+		nc.modules[name] = module
+	}
+	nc.notifyModuleFunc = nc.notifyModule
+	return nc
+}
+
+// VerifAddGroup registers a consumer group the way processConsumerList does for a newly listed group,
+// with LastEval lastEvalAgo in the past.
+func (nc *Coordinator) VerifAddGroup(cluster, group string, lastEvalAgo time.Duration) {
+	nc.clusterLock.Lock()
+	defer nc.clusterLock.Unlock()
+	if _, ok := nc.clusters[cluster]; !ok {
+		nc.clusters[cluster] = &clusterGroups{Lock: &sync.RWMutex{}, Groups: make(map[string]*consumerGroup)}
+	}
+	nc.clusters[cluster].Groups[group] = &consumerGroup{
+		LastNotify: make(map[string]time.Time),
+		LastEval:   time.Now().Add(-lastEvalAgo),
+	}
+}
+
+// VerifDeleteGroup removes a consumer group record.
+func (nc *Coordinator) VerifDeleteGroup(cluster, group string) {
+	nc.clusterLock.Lock()
+	defer nc.clusterLock.Unlock()
+	if c, ok := nc.clusters[cluster]; ok {
+		delete(c.Groups, group)
+	}
+}
+
+// VerifCheckAndSend runs checkAndSendResponseToModules synchronously.
+func (nc *Coordinator) VerifCheckAndSend(response *protocol.ConsumerGroupStatus) {
+	nc.running.Add(1)
+	nc.checkAndSendResponseToModules(response)
+}
+
+// VerifShiftTimes moves every stored instant (incident start, last notification, last evaluation) back
+// by d, which is observationally the same as the wall clock advancing by d.
+func (nc *Coordinator) VerifShiftTimes(d time.Duration) {
+	nc.clusterLock.Lock()
+	defer nc.clusterLock.Unlock()
+	for _, cluster := range nc.clusters {
+		cluster.Lock.Lock()
+		for _, group := range cluster.Groups {
+			if !group.Start.IsZero() {
+				group.Start = group.Start.Add(-d)
+			}
+			for name, t := range group.LastNotify {
+				if !t.IsZero() {
+					group.LastNotify[name] = t.Add(-d)
+				}
+			}
+			group.LastEval = group.LastEval.Add(-d)
+		}
+		cluster.Lock.Unlock()
+	}
+}
+
+// VerifStartEvalLoops starts manageEvalLoop exactly as Start does (the evaluation request loop is spawned by it).
+func (nc *Coordinator) VerifStartEvalLoops() {
+	go nc.manageEvalLoop()
+}
+
+// VerifStopEvalLoops makes running evaluation request loops exit.
+func (nc *Coordinator) VerifStopEvalLoops() {
+	nc.doEvaluations = false
+}
+
+// VerifSendEvaluatorRequestsOnce runs one sweep of sendEvaluatorRequests' loop body by enabling the loop
+// and disabling it from another goroutine after the given duration.
+func (nc *Coordinator) VerifRunEvaluatorRequests(d time.Duration) {
+	nc.doEvaluations = true
+	nc.running.Add(1)
+	go func() {
+		time.Sleep(d)
+		nc.doEvaluations = false
+	}()
+	nc.sendEvaluatorRequests()
+}
